@@ -149,5 +149,325 @@ theorem classCheck_iff_isSym [Zero α] [BEq α] [LawfulBEq α] (T : Dense α) (h
     obtain ⟨r, hr, e⟩ := classSub_eq_gather V hi.length_eq
     rw [e, h r hr i hi]
 
+/-! ### the class average is the specification average (one group) -/
+
+theorem nodup_allSubs (s : List Nat) : (allSubs s).Nodup := by
+  unfold allSubs
+  apply nodup_range.map_on
+  intro x hx y hy h
+  rw [mem_range] at hx hy
+  rw [← sub2ind_ind2sub hx, h, sub2ind_ind2sub hy]
+
+theorem le_foldl_max_nat (l : List Nat) (a : Nat) : a ≤ l.foldl max a ∧ ∀ x ∈ l, x ≤ l.foldl max a := by
+  induction l generalizing a with
+  | nil => simp
+  | cons y ys ih =>
+    simp only [foldl_cons, mem_cons, forall_eq_or_imp]
+    have := ih (max a y)
+    exact ⟨Nat.le_trans (Nat.le_max_left a y) this.1, Nat.le_trans (Nat.le_max_right a y) this.1, this.2⟩
+
+theorem accumAt_map [AddCommMonoid α] {β : Type} (l : List β) (key : β → Nat) (val : β → α) (L : Nat) :
+    accumAt (l.map key) (l.map val) L = ((l.filter fun x => key x == L).map val).sum := by
+  unfold accumAt
+  rw [zip_map', filter_map, map_map]
+  rfl
+
+theorem getD_accumarray [AddCommMonoid α] (idx : List Nat) (vals : List α) {L : Nat} (hL : L ∈ idx) :
+    (accumarray idx vals).getD L 0 = accumAt idx vals L := by
+  have hlt : L < idx.foldl max 0 + 1 := Nat.lt_succ_of_le ((le_foldl_max_nat idx 0).2 L hL)
+  simp [accumarray, List.getD_eq_getElem?_getD, hlt]
+
+theorem length_accumarray [AddCommMonoid α] (idx : List Nat) (vals : List α) :
+    (accumarray idx vals).length = idx.foldl max 0 + 1 := by simp [accumarray]
+
+/-- the subscripts with the same exemplar as `j`. -/
+def classOf (s g j : List Nat) : List (List Nat) :=
+  (allSubs s).filter fun i => decide (classSub g i = classSub g j)
+
+theorem mem_classOf {s g j i : List Nat} :
+    i ∈ classOf s g j ↔ InBounds s i ∧ classSub g i = classSub g j := by
+  simp [classOf, mem_allSubs]
+
+theorem nodup_classOf (s g j : List Nat) : (classOf s g j).Nodup := (nodup_allSubs s).filter _
+
+/-- the entries computed by the averaging branch of the loop body. -/
+theorem symStepNew_avg_get [Field α] [DecidableEq α] (T : Dense α) (hT : T.WF) {g : List Nat}
+    (V : ValidGroups T.shape.length [g]) (hs : SizesOK T.shape [g]) (hc : classCheck T g = false)
+    {j : List Nat} (hj : InBounds T.shape j) :
+    (symStepNew T g).shape = T.shape ∧ (symStepNew T g).WF ∧
+    (symStepNew T g).get j = ((classOf T.shape g j).map T.get).sum / ((classOf T.shape g j).length : α) := by
+  have hform : symStepNew T g = Dense.ofFn T.shape fun i =>
+      (List.zipWith (· / ·)
+        (accumarray ((allSubs T.shape).map fun i => sub2ind T.shape (classSub g i)) T.data)
+        (accumarray ((allSubs T.shape).map fun i => sub2ind T.shape (classSub g i))
+          ((allSubs T.shape).map fun _ => (1 : α)))).getD (sub2ind T.shape (classSub g i)) 0 := by
+    simp only [symStepNew, hc, Bool.false_eq_true, if_false, Dense.ofFn, map_map, Function.comp_def]
+  rw [hform]
+  refine ⟨rfl, Dense.ofFn_WF _ _, ?_⟩
+  rw [Dense.ofFn_get _ _ hj]
+  set lin := (allSubs T.shape).map fun i => sub2ind T.shape (classSub g i) with hlin
+  have hL : sub2ind T.shape (classSub g j) ∈ lin := by
+    rw [hlin, mem_map]; exact ⟨j, mem_allSubs.2 hj, rfl⟩
+  have hlt : sub2ind T.shape (classSub g j) < lin.foldl max 0 + 1 :=
+    Nat.lt_succ_of_le ((le_foldl_max_nat lin 0).2 _ hL)
+  rw [getD_zipWith' _ _ _ _ 0 0 0 (by rw [length_accumarray]; exact hlt) (by rw [length_accumarray]; exact hlt),
+    getD_accumarray _ _ hL, getD_accumarray _ _ hL]
+  have hfilter : ((allSubs T.shape).filter fun i => sub2ind T.shape (classSub g i) == sub2ind T.shape (classSub g j)) =
+      classOf T.shape g j := by
+    unfold classOf
+    apply filter_congr
+    intro i hi
+    have hi' := mem_allSubs.1 hi
+    have h1 := classSub_inBounds V hs hi'
+    have h2 := classSub_inBounds V hs hj
+    by_cases h : classSub g i = classSub g j
+    · simp [h]
+    · have : sub2ind T.shape (classSub g i) ≠ sub2ind T.shape (classSub g j) := by
+        intro e; apply h
+        rw [← ind2sub_sub2ind h1, e, ind2sub_sub2ind h2]
+      simp [h, this]
+  conv => lhs; rw [Dense.data_eq_map_get T hT]
+  rw [hlin, accumAt_map, accumAt_map, hfilter]
+  congr 1
+  simp
+
+/-- moving every subscript of a class by a member order permutes the class. -/
+theorem classOf_map_gather_perm {s g j : List Nat} (V : ValidGroups s.length [g]) (hs : SizesOK s [g])
+    {p : List Nat} (hp : GroupPerm [g] s.length p) :
+    ((classOf s g j).map fun i => gather i p).Perm (classOf s g j) := by
+  have hinj : ∀ x ∈ classOf s g j, ∀ y ∈ classOf s g j, gather x p = gather y p → x = y := by
+    intro x hx y hy h
+    exact gather_perm_inj hp.1 (mem_classOf.1 hx).1.length_eq (mem_classOf.1 hy).1.length_eq h
+  rw [perm_ext_iff_of_nodup ((nodup_classOf s g j).map_on hinj) (nodup_classOf s g j)]
+  intro x
+  simp only [mem_map, mem_classOf]
+  constructor
+  · rintro ⟨i, ⟨hi1, hi2⟩, rfl⟩
+    exact ⟨hp.inBounds hs hi1, by rw [classSub_gather V hi1.length_eq hp, hi2]⟩
+  · rintro ⟨hx1, hx2⟩
+    refine ⟨gather x (invPerm p), ⟨hp.inv.inBounds hs hx1, ?_⟩, ?_⟩
+    · rw [classSub_gather V hx1.length_eq hp.inv, hx2]
+    · rw [comp_assoc hp.inv.1 hp.1, invPerm_comp hp.1, gather_range_of_length hx1.length_eq]
+
+/-- the class average equals the average over the member orders. -/
+theorem class_average_eq_spec [Field α] [CharZero α] (T : Dense α) {g : List Nat}
+    (V : ValidGroups T.shape.length [g]) (hs : SizesOK T.shape [g]) {j : List Nat} (hj : InBounds T.shape j) :
+    ((classOf T.shape g j).map T.get).sum / ((classOf T.shape g j).length : α) = (symSpec T [g]).get j := by
+  have hjC : j ∈ classOf T.shape g j := mem_classOf.2 ⟨hj, rfl⟩
+  have hCne : ((classOf T.shape g j).length : α) ≠ 0 :=
+    Nat.cast_ne_zero.2 (by have := length_pos_of_mem hjC; omega)
+  have hPne : ((groupPerms T.shape.length [g]).length : α) ≠ 0 :=
+    Nat.cast_ne_zero.2 (by have := length_groupPerms_pos [g] T.shape.length; omega)
+  -- (a) the specification is constant on the class
+  have ha : ∀ i ∈ classOf T.shape g j, (symSpec T [g]).get i = (symSpec T [g]).get j := by
+    intro i hi
+    obtain ⟨hi1, hi2⟩ := mem_classOf.1 hi
+    obtain ⟨r, hr, rfl⟩ := (classSub_eq_iff V hi1.length_eq hj.length_eq).1 hi2
+    exact symSpec_invariant T V hs hr hj
+  -- (b) the class sums of the specification and of the tensor agree
+  have hb : ((classOf T.shape g j).map (symSpec T [g]).get).sum = ((classOf T.shape g j).map T.get).sum := by
+    have h1 : ((classOf T.shape g j).map (symSpec T [g]).get) =
+        (classOf T.shape g j).map fun i =>
+          ((groupPerms T.shape.length [g]).map fun p => T.get (gather i p)).sum /
+            ((groupPerms T.shape.length [g]).length : α) := by
+      apply map_congr_left
+      intro i hi
+      exact symSpec_get T [g] (mem_classOf.1 hi).1
+    rw [h1, sum_map_div', sum_map_sum_comm]
+    have h2 : ((groupPerms T.shape.length [g]).map fun p =>
+          ((classOf T.shape g j).map fun i => T.get (gather i p)).sum) =
+        (groupPerms T.shape.length [g]).map fun _ => ((classOf T.shape g j).map T.get).sum := by
+      apply map_congr_left
+      intro p hp
+      have := ((classOf_map_gather_perm (j := j) V hs (mem_groupPerms.1 hp)).map T.get).sum_eq
+      rwa [map_map] at this
+    rw [h2, sum_const_div _ (groupPerms_ne_nil _ _)]
+  rw [← hb]
+  have h3 : ((classOf T.shape g j).map (symSpec T [g]).get) =
+      (classOf T.shape g j).map fun _ => (symSpec T [g]).get j := map_congr_left ha
+  rw [h3, sum_const_div _ (ne_nil_of_mem hjC)]
+
+/-- one pass of the loop body is the specification average for that group. -/
+theorem symStepNew_eq_spec [Field α] [CharZero α] [DecidableEq α] (T : Dense α) (hT : T.WF) {g : List Nat}
+    (V : ValidGroups T.shape.length [g]) (hs : SizesOK T.shape [g]) :
+    symStepNew T g = symSpec T [g] := by
+  by_cases hc : classCheck T g = true
+  · have : symStepNew T g = T := by simp [symStepNew, hc]
+    rw [this]
+    exact (symSpec_fixes T hT hs ((classCheck_iff_isSym T hT V hs).1 hc)).symm
+  · have hc' : classCheck T g = false := by simpa using hc
+    have h0 := fun j hj => symStepNew_avg_get T hT V hs hc' (j := j) hj
+    -- shape and well-formedness do not depend on `j`
+    have hshape : (symStepNew T g).shape = T.shape := by
+      simp only [symStepNew, hc', Bool.false_eq_true, if_false]
+    have hwf : (symStepNew T g).WF := by
+      simp only [symStepNew, hc', Bool.false_eq_true, if_false, Dense.WF, length_map, length_allSubs]
+    apply Dense.ext_get hwf (symSpec_WF T [g]) hshape
+    intro j hj
+    rw [hshape] at hj
+    rw [(h0 j hj).2.2, class_average_eq_spec T V hs hj]
+
+/-! ### all groups, in order -/
+
+theorem symStepNew_shape [Add α] [Zero α] [One α] [Div α] [BEq α] (T : Dense α) (g : List Nat) :
+    (symStepNew T g).shape = T.shape := by
+  unfold symStepNew
+  by_cases hc : classCheck T g = true
+  · simp [hc]
+  · simp [hc]
+
+/-- what the class-based `symmetrize` checks on its way through the groups. -/
+def AcceptedNew (s : List Nat) : List (List Nat) → Prop
+  | [] => True
+  | g :: rest => g ≠ [] ∧ (∀ m ∈ g, m < s.length) ∧ (∀ a ∈ g, ∀ b ∈ g, s.getD a 0 = s.getD b 0) ∧
+      (∀ h ∈ rest, ∀ m, m ∈ g → ¬ m ∈ h) ∧ AcceptedNew s rest
+
+theorem acceptedNew_iff (s : List Nat) (grps : List (List Nat)) :
+    AcceptedNew s grps ↔ (∀ g ∈ grps, g ≠ []) ∧ InRangeAll s.length grps ∧ SizesOK s grps ∧ NoOverlap grps := by
+  induction grps with
+  | nil => simp [AcceptedNew, InRangeAll, SizesOK, NoOverlap]
+  | cons g gs ih =>
+    simp only [AcceptedNew, ih, InRangeAll, SizesOK, NoOverlap, mem_cons, forall_eq_or_imp, pairwise_cons]
+    constructor
+    · rintro ⟨h1, h2, h3, h4, h5, h6, h7, h8⟩
+      exact ⟨⟨h1, h5⟩, ⟨h2, h6⟩, ⟨h3, h7⟩, ⟨h4, h8⟩⟩
+    · rintro ⟨⟨h1, h5⟩, ⟨h2, h6⟩, ⟨h3, h7⟩, ⟨h4, h8⟩⟩
+      exact ⟨h1, h2, h3, h4, h5, h6, h7, h8⟩
+
+theorem symmetrizeNewGo_step [Add α] [Zero α] [One α] [Div α] [BEq α] (D : Dense α) (g : List Nat)
+    (rest : List (List Nat)) (h1 : g ≠ []) (h2 : ∀ m ∈ g, m < D.shape.length)
+    (h3 : ∀ a ∈ g, ∀ b ∈ g, D.shape.getD a 0 = D.shape.getD b 0)
+    (h4 : ∀ h ∈ rest, ∀ m, m ∈ g → ¬ m ∈ h) :
+    symmetrizeNewGo D (g :: rest) = symmetrizeNewGo (symStepNew D g) rest := by
+  have c1 : (g.isEmpty || !inRange D.shape.length g) = false := by
+    have : inRange D.shape.length g = true := by simpa [inRange] using h2
+    simp [h1, this]
+  have c2 : sameSizes D.shape g = true := (sameSizes_iff _ _).2 h3
+  have c3 : rest.any (fun h => h.any g.contains) = false := (rest_overlap_false_iff g rest).2 h4
+  simp only [symmetrizeNewGo, c1, c2, c3, Bool.not_true, Bool.false_eq_true, if_false]
+
+/-- the class-based version returns the specification average. -/
+theorem symmetrizeNewGo_eq_spec [Field α] [CharZero α] [DecidableEq α] :
+    ∀ (grps : List (List Nat)) (T : Dense α), T.WF → ValidGroups T.shape.length grps →
+      SizesOK T.shape grps → (∀ g ∈ grps, g ≠ []) → symmetrizeNewGo T grps = .ok (symSpec T grps) := by
+  intro grps
+  induction grps with
+  | nil =>
+    intro T hT _ hs _
+    simp only [symmetrizeNewGo]
+    rw [symSpec_fixes T hT hs (isSym_nil T)]
+  | cons g gs ih =>
+    intro T hT V hs hne
+    rw [symmetrizeNewGo_step T g gs (hne g mem_cons_self) (V.1 g mem_cons_self).2
+      (hs g mem_cons_self) (fun h hh m hm => V.disjoint_head hh hm)]
+    rw [symStepNew_eq_spec T hT V.head (sizesOK_head hs), symSpec_cons T V hs]
+    exact ih (symSpec T [g]) (symSpec_WF T [g]) (by simpa using V.tail) (by simpa using sizesOK_tail hs)
+      (fun h hh => hne h (mem_cons_of_mem _ hh))
+
+/-- anything the checks do not accept is rejected. -/
+theorem symmetrizeNewGo_rejects [Add α] [Zero α] [One α] [Div α] [BEq α] :
+    ∀ (grps : List (List Nat)) (D : Dense α), ¬ AcceptedNew D.shape grps →
+      symmetrizeNewGo D grps = .error .reject := by
+  intro grps
+  induction grps with
+  | nil => intro D h; exact absurd trivial h
+  | cons g gs ih =>
+    intro D h
+    by_cases h1 : g = []
+    · subst h1; simp [symmetrizeNewGo]
+    by_cases h2 : ∀ m ∈ g, m < D.shape.length
+    · by_cases h3 : ∀ a ∈ g, ∀ b ∈ g, D.shape.getD a 0 = D.shape.getD b 0
+      · by_cases h4 : ∀ h ∈ gs, ∀ m, m ∈ g → ¬ m ∈ h
+        · rw [symmetrizeNewGo_step D g gs h1 h2 h3 h4]
+          apply ih
+          rw [symStepNew_shape]
+          intro h5
+          exact h ⟨h1, h2, h3, h4, h5⟩
+        · have c1 : (g.isEmpty || !inRange D.shape.length g) = false := by
+            have : inRange D.shape.length g = true := by simpa [inRange] using h2
+            simp [h1, this]
+          have c2 : sameSizes D.shape g = true := (sameSizes_iff _ _).2 h3
+          have c3 : gs.any (fun h => h.any g.contains) = true := by
+            cases hc : gs.any (fun h => h.any g.contains) with
+            | true => rfl
+            | false => exact absurd ((rest_overlap_false_iff g gs).1 hc) h4
+          simp only [symmetrizeNewGo, c1, c2, c3, Bool.not_true, Bool.false_eq_true, if_false, if_true]
+      · have c1 : (g.isEmpty || !inRange D.shape.length g) = false := by
+          have : inRange D.shape.length g = true := by simpa [inRange] using h2
+          simp [h1, this]
+        have c2 : sameSizes D.shape g = false := by
+          cases hc : sameSizes D.shape g with
+          | false => rfl
+          | true => exact absurd ((sameSizes_iff _ _).1 hc) h3
+        simp only [symmetrizeNewGo, c1, c2, Bool.not_false, Bool.false_eq_true, if_false, if_true]
+    · have c1 : (g.isEmpty || !inRange D.shape.length g) = true := by
+        have : inRange D.shape.length g = false := by
+          cases hc : inRange D.shape.length g with
+          | false => rfl
+          | true => exact absurd (by simpa [inRange] using hc) h2
+        simp [this]
+      simp only [symmetrizeNewGo, c1, if_true]
+
+/-! ### the class-based symmetry test -/
+
+theorem issymmetricNewGo_spec [Zero α] [BEq α] [LawfulBEq α] (T : Dense α) (hT : T.WF) :
+    ∀ (grps : List (List Nat)), ValidGroups T.shape.length grps → SizesOK T.shape grps →
+      (∀ g ∈ grps, g ≠ []) → ∃ b, issymmetricNewGo T grps = .ok b ∧ (b = true ↔ IsSym T grps) := by
+  intro grps
+  induction grps with
+  | nil => intro _ _ _; exact ⟨true, rfl, by simp [isSym_nil]⟩
+  | cons g gs ih =>
+    intro V hs hne
+    obtain ⟨b, hb1, hb2⟩ := ih V.tail (sizesOK_tail hs) (fun h hh => hne h (mem_cons_of_mem _ hh))
+    have c1 : (g.isEmpty || !inRange T.shape.length g) = false := by
+      have : inRange T.shape.length g = true := by simpa [inRange] using (V.1 g mem_cons_self).2
+      simp [hne g mem_cons_self, this]
+    have c2 : sameSizes T.shape g = true := (sameSizes_iff _ _).2 (hs g mem_cons_self)
+    have hcc := classCheck_iff_isSym T hT V.head (sizesOK_head hs)
+    by_cases hc : classCheck T g = true
+    · refine ⟨b, ?_, ?_⟩
+      · simp only [issymmetricNewGo, c1, c2, hc, Bool.not_true, Bool.false_eq_true, if_false]
+        exact hb1
+      · rw [isSym_cons T V hs, hb2]
+        constructor
+        · intro h; exact ⟨hcc.1 hc, h⟩
+        · intro h; exact h.2
+    · refine ⟨false, ?_, ?_⟩
+      · have hc' : classCheck T g = false := by simpa using hc
+        simp only [issymmetricNewGo, c1, c2, hc', Bool.not_true, Bool.not_false, Bool.false_eq_true,
+          if_false, if_true]
+      · rw [isSym_cons T V hs]
+        constructor
+        · intro h; exact absurd h (by simp)
+        · intro h; exact absurd (hcc.2 h.1) hc
+
+/-- some group has modes of different extents: the class-based test answers `False`. -/
+theorem issymmetricNewGo_unequal [Zero α] [BEq α] (T : Dense α) :
+    ∀ (grps : List (List Nat)), InRangeAll T.shape.length grps → (∀ g ∈ grps, g ≠ []) →
+      ¬ SizesOK T.shape grps → issymmetricNewGo T grps = .ok false := by
+  intro grps
+  induction grps with
+  | nil => intro _ _ h; exact absurd (by simp [SizesOK]) h
+  | cons g gs ih =>
+    intro hr hne hs
+    have c1 : (g.isEmpty || !inRange T.shape.length g) = false := by
+      have : inRange T.shape.length g = true := by simpa [inRange] using hr g mem_cons_self
+      simp [hne g mem_cons_self, this]
+    by_cases h3 : sameSizes T.shape g = true
+    · by_cases hc : classCheck T g = true
+      · simp only [issymmetricNewGo, c1, h3, hc, Bool.not_true, Bool.false_eq_true, if_false]
+        apply ih (fun h hh => hr h (mem_cons_of_mem _ hh)) (fun h hh => hne h (mem_cons_of_mem _ hh))
+        intro h
+        apply hs
+        intro h' hh'
+        rcases mem_cons.1 hh' with rfl | hh'
+        · exact (sameSizes_iff _ _).1 h3
+        · exact h h' hh'
+      · have hc' : classCheck T g = false := by simpa using hc
+        simp only [issymmetricNewGo, c1, h3, hc', Bool.not_true, Bool.not_false, Bool.false_eq_true,
+          if_false, if_true]
+    · have h3' : sameSizes T.shape g = false := by simpa using h3
+      simp only [issymmetricNewGo, c1, h3', Bool.not_false, Bool.false_eq_true, if_false, if_true]
+
 end Sym
 end Pyttb
